@@ -772,8 +772,16 @@ func nmove(wdt float64, subd int, zeit int, g *GlobalVarsMain, l *NitroSharedVar
 			} else {
 				l.KONV[z0] = Carray[z+1] * g.Q1[z] / g.DZ.Num
 			}
+			if z == g.DRAIDEP {
+				// drain water leaves the layer with its solute whatever the direction of the flux below it
+				// (capillary rise can turn that flux upward after the drain outflow was taken)
+				l.KONV[z0] = l.KONV[z0] + Carray[z]*g.QDRAIN/g.DZ.Num
+			}
 		} else if g.Q1[z] < 0 && g.Q1[z-1] >= 0 {
 			l.KONV[z0] = (Carray[z+1]*g.Q1[z] - Carray[z-1]*g.Q1[z-1]) / g.DZ.Num
+			if z == g.DRAIDEP {
+				l.KONV[z0] = l.KONV[z0] + Carray[z]*g.QDRAIN/g.DZ.Num
+			}
 		}
 	}
 	g.DRAINLOSS = g.DRAINLOSS + g.QDRAIN*Carray[g.DRAIDEP]/g.DZ.Num*100*g.DZ.Num
